@@ -43,6 +43,8 @@ def run(prog, chk):
     C10.registration(prog, chk)  # an element placed against a target that is not resolved yet has no (or a wrong) box in the extent
     # the fold of a box through the transform list is decided by the evaluated site `transform-fold` (A17)
     config_is_incremental(prog, chk)
+    from props import C07
+    C07.cli_config_mapping(prog, chk)  # border / scale given on the command line reach the configuration the extent is computed with
     from props import geomalg
     geomalg.check_sites(prog, chk, "C08")
     geomalg.check(prog, chk, "C08", floor=27)
